@@ -556,15 +556,23 @@ func (g *G) assignStmt() {
 		g.noGrow++
 		defer func() { g.noGrow-- }()
 	}
+	// element assignments never mention containers on the right-hand side:
+	// the generator must not build a value that contains itself (printing
+	// one overflows the Go stack – a pure-input crash outside this technique)
+	elem := func(t *Ty) string {
+		g.noGrow++
+		defer func() { g.noGrow-- }()
+		return g.expr(t, 2)
+	}
 	switch {
 	case v.ty.K == "array" && g.r.Chance(0.4):
-		g.emit("%s[%s] = %s", v.name, g.idx(), g.expr(v.ty.Sub, 2))
+		g.emit("%s[%s] = %s", v.name, g.idx(), elem(v.ty.Sub))
 	case v.ty.K == "map" && g.r.Chance(0.6):
 		k := keyPool[g.r.Intn(len(keyPool))]
 		if g.r.Chance(0.5) {
-			g.emit("%s.%s = %s", v.name, k, g.expr(v.ty.Sub, 2))
+			g.emit("%s.%s = %s", v.name, k, elem(v.ty.Sub))
 		} else {
-			g.emit("%s[%q] = %s", v.name, k, g.expr(v.ty.Sub, 2))
+			g.emit("%s[%q] = %s", v.name, k, elem(v.ty.Sub))
 		}
 	case v.ty.K == "map" && g.r.Chance(0.5):
 		g.emit("del %s %q", v.name, keyPool[g.r.Intn(len(keyPool))])
